@@ -297,6 +297,52 @@ example : substText [⟨"i", "if".toList, false⟩, ⟨"a", "x".toList, false⟩
 example : substText [⟨"g", "z".toList, true⟩, ⟨"a", "x".toList, false⟩] "a g a > g".toList
     = "x z a > z".toList := by decide +kernel
 
+/-! ## argument words: only global aliases (or the blank rule), for every utility class -/
+
+/-- Whatever the command word is (a declaration utility such as `export`/`readonly`/`typeset`, the neutral
+    `command`, or any other word — the automaton does not even look at it), after it the parser is in argument
+    position … -/
+theorem after_command_word (lit : Option String) (h : isKeyword lit = false) :
+    (trans .cmd0 (.word lit false)).onTake = .one := by
+  simp [trans, transCore, h]
+
+/-- … and stays there for every further word (options, `--`, assignment-shaped words, names). -/
+theorem after_argument_word (lit : Option String) (asg : Bool) :
+    (trans .one (.word lit asg)).onTake = .args ∧ (trans .args (.word lit asg)).onTake = .args ∧
+    (trans .one (.word lit asg)).sub = some false ∧ (trans .args (.word lit asg)).sub = some false := by
+  simp [trans, transCore]
+
+/-- ★ `argument_words_only_global`: in argument position (after ANY command word, of any utility class, also
+    after `command command`, `command export`, options and `--`) a step either leaves the text unchanged or
+    replaces a word whose alias is GLOBAL or which follows a blank-ending replacement — a non-global alias
+    name there is never replaced otherwise. -/
+theorem argument_words_only_global (T : Table) (s s' : MState) (h : step T s = some s')
+    (hst : s.st = .one ∨ s.st = .args) :
+    s'.text = s.text ∨
+    ∃ (c0 : SChar) (tl : List SChar) (a : Alias) (name : String) (asg : Bool),
+      s.rest.drop (skipLen s.rest) = c0 :: tl ∧
+      (lexTok (c0 :: tl)).kind = .word (some name) asg ∧
+      T.lookup name = some a ∧
+      (a.global = true ∨
+        afterBlank ((markLc (s.rest.take (skipLen s.rest))).reverse ++ s.pre) (some c0) = true) := by
+  rcases only_eligible T s s' h with h1 | ⟨c0, tl, a, cmd, name, asg, hdrop, hkind, hsub, _, hlook, hwhy, _⟩
+  · exact Or.inl h1
+  · right
+    refine ⟨c0, tl, a, name, asg, hdrop, hkind, hlook, ?_⟩
+    have hcmd : cmd = false := by
+      rw [hkind] at hsub
+      rcases hst with h2 | h2 <;> rw [h2] at hsub <;> simp [trans, transCore] at hsub <;> exact hsub
+    rcases hwhy with h3 | h3 | h3
+    · rw [hcmd] at h3; cases h3
+    · exact Or.inl h3
+    · exact Or.inr h3
+
+/-- non-vacuity: after `command` (neutral), `export` (declaration utility) and `x` the non-global alias `a` is
+    left alone in every argument position, the global alias `g` is replaced. -/
+example : substText [⟨"a", "A".toList, false⟩, ⟨"g", "G".toList, true⟩]
+    "command a g; command command a; export a=1 a g; x -o a -- a g".toList
+    = "command a G; command command a; export a=1 a G; x -o a -- a G".toList := by decide +kernel
+
 /-! ## the guard is about NAMES: alias table changing while a replacement is being read -/
 
 /-- ★ `guard_by_name`: a word whose first character's origin chain contains the name `n` is never replaced
